@@ -1,6 +1,8 @@
 import DaskModel.Model.ChunkPercentile
 import DaskModel.Props.C32
 import Mathlib.Data.Rat.Floor
+import Mathlib.Data.List.Perm.Subperm
+import Mathlib.Algebra.BigOperators.Group.List.Basic
 /-!
 # C32 (extension) — the approximate percentile lies within the DATA, end to end
 
@@ -16,6 +18,9 @@ sort permutation:
   chunk's minimum / maximum (an element, below / above all others)
 * `percentile_within_data`  — every output lies between any lower and upper bound of all the data
 * `percentile_monotone`     — sorted q ⇒ sorted outputs
+* `percentile_q0_q100`      — where q = 0 / 100 the output IS the data's minimum / maximum (`arrange_perm`: the merged
+  entries are a permutation of the inputs; `liveEntries_weight`: total weight = 100·N, so the pins of `select` fire)
+* `percentile_1d_statement` — the four clauses together
 * `percentile1d_ok`         — a run that returns values: every q in [0, 100], some chunk non-empty (else ValueError)
 -/
 namespace Dask.C32xData
@@ -352,6 +357,278 @@ theorem percentile_monotone (order : Option (List Nat)) (m : Method) (q : List R
   obtain ⟨hq, ⟨a0, ha0, hne0⟩, hm⟩ := percentile1d_ok h
   exact mergePercentilesWith_monotone order m q _ out (liveEntries_nonneg hs hq)
     (List.ne_nil_of_mem (head_entry_mem m q ha0 hne0)) hs hm
+
+/-! ## q = 0 and q = 100 give the data's minimum and maximum -/
+
+theorem insertBy_perm (x : Entry) (l : List Entry) : (insertBy x l).Perm (x :: l) := by
+  induction l with
+  | nil => simp [insertBy]
+  | cons y ys ih =>
+    unfold insertBy
+    split
+    · exact List.Perm.refl _
+    · exact ((List.Perm.cons y ih).trans (List.Perm.swap x y ys))
+
+theorem isortBy_perm (es : List Entry) : (isortBy es).Perm es := by
+  induction es with
+  | nil => simp [isortBy]
+  | cons x xs ih => exact (insertBy_perm x _).trans (List.Perm.cons x ih)
+
+theorem map_getD_range (es : List Entry) (d : Entry) : (List.range es.length).map (fun i => es.getD i d) = es := by
+  apply List.ext_getElem
+  · simp
+  · intro i h1 h2
+    simp at h1
+    simp [List.getD_eq_getElem?_getD, h1]
+
+/-- whatever validated permutation `np.argsort` returned, the merged entries are the input entries, rearranged -/
+theorem arrange_perm {es : List Entry} {order : Option (List Nat)} {out : List Entry}
+    (h : arrange es order = some out) : out.Perm es := by
+  cases order with
+  | none =>
+    simp only [arrange] at h; injection h with h; subst h
+    exact isortBy_perm es
+  | some o =>
+    simp only [arrange] at h
+    split at h
+    · rename_i hv
+      injection h with h; subst h
+      simp only [validOrder, Bool.and_eq_true, beq_iff_eq] at hv
+      have hsub : List.range es.length ⊆ o := by
+        intro i hi
+        have := List.all_eq_true.mp hv.1.2 i hi
+        simpa using this
+      have hp : (List.range es.length).Perm o :=
+        (List.subperm_of_subset List.nodup_range hsub).perm_of_length_le (by simp [hv.1.1.1])
+      have := (hp.map (fun i => es.getD i ⟨0, 0⟩)).symm
+      rwa [map_getD_range] at this
+    · simp at h
+
+theorem merge_unfold {order : Option (List Nat)} {m : Method} {fq : List Rat} {ins : List Input} {out : List Rat}
+    (h : mergePercentilesWith order m fq ins = some (some out)) :
+    ∃ entries, arrange ((ins.filter (fun i => i.N != 0)).flatMap entriesOf) order = some entries ∧
+      out = fq.map fun x => select m (entries.map (·.val)) (cumsum 0 (entries.map (·.cnt)))
+        (x * ((isum ((ins.filter (fun i => i.N != 0)).map (·.N)) : Nat) : Rat)) := by
+  unfold mergePercentilesWith at h
+  dsimp only at h
+  split at h
+  · simp at h
+  · split at h
+    · simp at h
+    · rename_i entries harr
+      simp only [Option.some.injEq] at h
+      exact ⟨entries, harr, h.symm⟩
+
+theorem cumsum_last : ∀ (cs : List Rat) (acc : Rat), cs ≠ [] →
+    nth (cumsum acc cs) ((cumsum acc cs).length - 1) = acc + cs.sum
+  | [], _, h => absurd rfl h
+  | [c], acc, _ => by simp [cumsum, nth]
+  | c :: d :: t, acc, _ => by
+    have ih := cumsum_last (d :: t) (acc + c) (by simp)
+    have hl : (cumsum (acc + c) (d :: t)).length = t.length + 1 := by simp [length_cumsum]
+    rw [hl] at ih
+    have hl2 : (cumsum acc (c :: d :: t)).length = t.length + 2 := by simp [length_cumsum]
+    rw [hl2]
+    have : nth (cumsum acc (c :: d :: t)) (t.length + 2 - 1) = nth (cumsum (acc + c) (d :: t)) (t.length + 1 - 1) := by
+      simp [cumsum, nth]
+    rw [this, ih]; simp only [List.sum_cons]; ring
+
+theorem adj_sum (N : Rat) : ∀ (l : List Rat) (a z : Rat),
+    (List.zipWith (fun a b => (b - a) * N) (a :: (l ++ [z])) (l ++ [z])).sum = (z - a) * N
+  | [], a, z => by simp
+  | b :: l, a, z => by
+    have ih := adj_sum N l b z
+    simp only [List.cons_append, List.zipWith_cons_cons, List.sum_cons] at ih ⊢
+    rw [ih]; ring
+
+theorem countsOf_calcQ_sum (q : List Rat) (N : Rat) : (countsOf (calcQ q) N).sum = 100 * N := by
+  simp only [calcQ, countsOf, List.sum_cons]
+  rw [adj_sum]; ring
+
+theorem length_countsOf (q : List Rat) (N : Rat) : (countsOf q N).length = q.length := by
+  cases q with
+  | nil => rfl
+  | cons a l => simp [countsOf]
+
+theorem zipWith_mk_cnt : ∀ (vs cs : List Rat), cs.length ≤ vs.length → (List.zipWith Entry.mk vs cs).map (·.cnt) = cs
+  | _, [], _ => by simp
+  | [], _ :: _, h => by simp at h
+  | v :: vs, c :: cs, h => by
+    simp only [List.zipWith_cons_cons, List.map_cons]
+    rw [zipWith_mk_cnt vs cs (by simpa using h)]
+
+theorem zipWith_mk_val : ∀ (vs cs : List Rat), vs.length ≤ cs.length → (List.zipWith Entry.mk vs cs).map (·.val) = vs
+  | [], _, _ => by simp
+  | _ :: _, [], h => by simp at h
+  | v :: vs, c :: cs, h => by
+    simp only [List.zipWith_cons_cons, List.map_cons]
+    rw [zipWith_mk_val vs cs (by simpa using h)]
+
+theorem entriesOf_chunk {m : Method} {cq a : List Rat} (ha : a ≠ []) :
+    (entriesOf (chunkInput m cq a)).map (·.val) = cq.map (pctSorted m (isort a)) ∧
+    (entriesOf (chunkInput m cq a)).map (·.cnt) = countsOf cq (a.length : Rat) := by
+  have hemp : a.isEmpty = false := by cases a with
+    | nil => exact absurd rfl ha
+    | cons _ _ => rfl
+  simp only [entriesOf, chunkInput, hemp]
+  exact ⟨zipWith_mk_val _ _ (by simp [length_countsOf]), zipWith_mk_cnt _ _ (by simp [length_countsOf])⟩
+
+/-- every per-chunk percentile of a non-empty chunk is one of the merged values -/
+theorem val_mem_liveEntries (m : Method) (q : List Rat) {chunks : List (List Rat)} {a : List Rat} (ha : a ∈ chunks)
+    (hne : a ≠ []) {c : Rat} (hc : c ∈ calcQ q) : ∃ e ∈ liveEntries m q chunks, e.val = pctSorted m (isort a) c := by
+  have hv : pctSorted m (isort a) c ∈ (entriesOf (chunkInput m (calcQ q) a)).map (·.val) := by
+    rw [(entriesOf_chunk hne).1]; exact List.mem_map.mpr ⟨c, hc, rfl⟩
+  obtain ⟨e, he, hev⟩ := List.mem_map.mp hv
+  refine ⟨e, ?_, hev⟩
+  unfold liveEntries
+  refine List.mem_flatMap.mpr ⟨chunkInput m (calcQ q) a, List.mem_filter.mpr ⟨List.mem_map.mpr ⟨a, ha, rfl⟩, ?_⟩, he⟩
+  have : a.length ≠ 0 := fun h => hne (List.length_eq_zero_iff.mp h)
+  simpa [chunkInput] using this
+
+/-- the total weight of the merged entries is 100 · (number of elements) -/
+theorem liveEntries_weight (m : Method) (q : List Rat) : ∀ (chunks : List (List Rat)),
+    ((liveEntries m q chunks).map (·.cnt)).sum =
+      100 * ((isum (((chunks.map (chunkInput m (calcQ q))).filter (fun i => i.N != 0)).map (·.N)) : Nat) : Rat)
+  | [] => by simp [liveEntries, isum]
+  | a :: rest => by
+    have ih := liveEntries_weight m q rest
+    unfold liveEntries at ih ⊢
+    by_cases ha : a = []
+    · subst ha
+      have : (chunkInput m (calcQ q) []).N = 0 := rfl
+      simpa [List.filter_cons, this] using ih
+    · have hN : ((chunkInput m (calcQ q) a).N != 0) = true := by
+        have : a.length ≠ 0 := fun h => ha (List.length_eq_zero_iff.mp h)
+        simpa [chunkInput] using this
+      simp only [List.map_cons, List.filter_cons, hN, if_true, List.flatMap_cons, List.map_append, List.sum_append]
+      rw [ih, (entriesOf_chunk ha).2, countsOf_calcQ_sum]
+      simp only [isum, List.foldr_cons, chunkInput]
+      push_cast; ring
+
+theorem isum_pos : ∀ (l : List Nat), l ≠ [] → (∀ n ∈ l, n ≠ 0) → 0 < isum l
+  | [], h, _ => absurd rfl h
+  | n :: l, _, h => by
+    have := h n (by simp)
+    simp only [isum, List.foldr_cons]; omega
+
+theorem zip_map_mem {α β : Type} (g : α → β) : ∀ (l : List α) (p : α × β), p ∈ l.zip (l.map g) → p.2 = g p.1
+  | [], _, h => by simp at h
+  | x :: l, p, h => by
+    simp only [List.map_cons, List.zip_cons_cons, List.mem_cons] at h
+    rcases h with rfl | h
+    · rfl
+    · exact zip_map_mem g l p h
+
+/-- **percentile_q0_q100**: wherever q is 0 the pipeline returns the minimum of the data, wherever q is 100 the
+    maximum (an element of the data, below / above all others) — exactly, for every chunking, method and sort
+    permutation. -/
+theorem percentile_q0_q100 (order : Option (List Nat)) (m : Method) (q : List Rat) (chunks : List (List Rat))
+    (out : List Rat) (hs : Sorted q) (h : percentile1d order m q chunks = some (some out)) :
+    out.length = q.length ∧ ∀ p ∈ q.zip out,
+      (p.1 = 0 → p.2 ∈ chunks.flatten ∧ ∀ x ∈ chunks.flatten, p.2 ≤ x) ∧
+      (p.1 = 100 → p.2 ∈ chunks.flatten ∧ ∀ x ∈ chunks.flatten, x ≤ p.2) := by
+  obtain ⟨hq, ⟨a0, ha0, hne0⟩, hm⟩ := percentile1d_ok h
+  obtain ⟨entries, harr, hout⟩ := merge_unfold hm
+  have hperm := arrange_perm harr
+  change entries.Perm (liveEntries m q chunks) at hperm
+  obtain ⟨hsv, _, hlen⟩ := arrange_spec _ _ _ harr
+  have hlive_ne : liveEntries m q chunks ≠ [] := List.ne_nil_of_mem (head_entry_mem m q ha0 hne0)
+  have hent_ne : entries ≠ [] := fun h0 => hlive_ne (by simpa [h0] using hperm.symm)
+  have hcnt : ∀ c ∈ entries.map (·.cnt), 0 ≤ c := by
+    intro c hc
+    obtain ⟨e, he, rfl⟩ := List.mem_map.mp hc
+    exact liveEntries_nonneg hs hq e (hperm.mem_iff.mp he)
+  -- abbreviations
+  generalize hvals : entries.map (·.val) = vals at hout hsv
+  generalize hcq : cumsum 0 (entries.map (·.cnt)) = cq at hout
+  generalize htot : ((isum (((chunks.map (chunkInput m (calcQ q))).filter (fun i => i.N != 0)).map (·.N)) : Nat) : Rat) = total at hout
+  have hc : Sorted cq := by rw [← hcq]; exact (cumsum_sorted _ 0 hcnt).1
+  have hl : vals.length = cq.length := by rw [← hvals, ← hcq, length_cumsum]; simp
+  have hpos : 0 < vals.length := by rw [← hvals, List.length_map]; exact List.length_pos_iff.mpr hent_ne
+  have hlast : nth cq (cq.length - 1) = 100 * total := by
+    rw [← hcq, cumsum_last _ 0 (by simpa using hent_ne), zero_add, (hperm.map (·.cnt)).sum_eq,
+      liveEntries_weight, htot]
+  have htotpos : 0 < total := by
+    rw [← htot]
+    have : 0 < isum (((chunks.map (chunkInput m (calcQ q))).filter (fun i => i.N != 0)).map (·.N)) := by
+      apply isum_pos
+      · intro h0
+        exact merge_some_live hm (List.map_eq_nil_iff.mp h0)
+      · intro n hn
+        obtain ⟨i, hi, rfl⟩ := List.mem_map.mp hn
+        simpa using (List.mem_filter.mp hi).2
+    exact_mod_cast this
+  have hvmem : ∀ v, v ∈ vals ↔ ∃ e ∈ liveEntries m q chunks, e.val = v := by
+    intro v; rw [← hvals, List.mem_map]
+    constructor
+    · rintro ⟨e, he, rfl⟩; exact ⟨e, hperm.mem_iff.mp he, rfl⟩
+    · rintro ⟨e, he, rfl⟩; exact ⟨e, hperm.mem_iff.mpr he, rfl⟩
+  have c0 : (0 : Rat) ∈ calcQ q := by simp [calcQ]
+  have c100 : (100 : Rat) ∈ calcQ q := by simp [calcQ]
+  refine ⟨by rw [hout]; simp, ?_⟩
+  intro p hp
+  rw [hout] at hp
+  have hp2 := zip_map_mem _ q p hp
+  obtain ⟨Q0, Q100⟩ := q0_q100 hsv hc hl hpos m (p.1 * total)
+  constructor
+  · intro hp0
+    have hsel : p.2 = nth vals 0 := by
+      rw [hp2]; apply Q0
+      · rw [hp0]; simp
+      · rw [hp0, hlast]; linarith
+    obtain ⟨fm, fle⟩ := first_is_min hsv hc hl hpos
+    rw [hsel]
+    -- the first merged value is some chunk's percentile; it is squeezed onto that chunk's minimum
+    obtain ⟨e, he, hev⟩ := (hvmem _).mp fm
+    obtain ⟨a, ha, hane, ⟨c, hcc, hv⟩, _⟩ := mem_liveEntries he
+    obtain ⟨mina_mem, mina_le⟩ := chunk_pct_q0 m a hane
+    have hcr := calcQ_range hq c hcc
+    have hge : pctSorted m (isort a) 0 ≤ nth vals 0 := by
+      rw [← hev, hv]
+      exact (chunk_pct_within m a hane hcr.1 hcr.2 _ _ mina_le (chunk_pct_q100 m a hane).2).1
+    have hle : nth vals 0 ≤ pctSorted m (isort a) 0 := fle _ ((hvmem _).mpr (val_mem_liveEntries m q ha hane c0))
+    have heq : nth vals 0 = pctSorted m (isort a) 0 := le_antisymm hle hge
+    refine ⟨by rw [heq]; exact List.mem_flatten.mpr ⟨a, ha, mina_mem⟩, ?_⟩
+    intro x hx
+    obtain ⟨b, hb, hxb⟩ := List.mem_flatten.mp hx
+    have hbne : b ≠ [] := List.ne_nil_of_mem hxb
+    exact le_trans (fle _ ((hvmem _).mpr (val_mem_liveEntries m q hb hbne c0))) ((chunk_pct_q0 m b hbne).2 x hxb)
+  · intro hp100
+    have hsel : p.2 = nth vals (vals.length - 1) := by
+      rw [hp2]; apply Q100
+      rw [hp100, hlast]
+    obtain ⟨lm, lle⟩ := last_is_max hsv hc hl hpos
+    rw [hsel]
+    obtain ⟨e, he, hev⟩ := (hvmem _).mp lm
+    obtain ⟨a, ha, hane, ⟨c, hcc, hv⟩, _⟩ := mem_liveEntries he
+    obtain ⟨maxa_mem, maxa_le⟩ := chunk_pct_q100 m a hane
+    have hcr := calcQ_range hq c hcc
+    have hle : nth vals (vals.length - 1) ≤ pctSorted m (isort a) 100 := by
+      rw [← hev, hv]
+      exact (chunk_pct_within m a hane hcr.1 hcr.2 _ _ (chunk_pct_q0 m a hane).2 maxa_le).2
+    have hge : pctSorted m (isort a) 100 ≤ nth vals (vals.length - 1) :=
+      lle _ ((hvmem _).mpr (val_mem_liveEntries m q ha hane c100))
+    have heq : nth vals (vals.length - 1) = pctSorted m (isort a) 100 := le_antisymm hle hge
+    refine ⟨by rw [heq]; exact List.mem_flatten.mpr ⟨a, ha, maxa_mem⟩, ?_⟩
+    intro x hx
+    obtain ⟨b, hb, hxb⟩ := List.mem_flatten.mp hx
+    have hbne : b ≠ [] := List.ne_nil_of_mem hxb
+    exact le_trans ((chunk_pct_q100 m b hbne).2 x hxb) (lle _ ((hvmem _).mpr (val_mem_liveEntries m q hb hbne c100)))
+
+/-- **The 1-d clauses of C32 about the data itself**: a run of `da.percentile` (sorted q) that returns values returns
+    one per q, each between any bounds of the data, non-decreasing in q, the data's minimum wherever q = 0 and its
+    maximum wherever q = 100. -/
+theorem percentile_1d_statement (order : Option (List Nat)) (m : Method) (q : List Rat) (chunks : List (List Rat))
+    (out : List Rat) (hs : Sorted q) (h : percentile1d order m q chunks = some (some out)) :
+    out.length = q.length ∧
+    (∀ lo hi : Rat, (∀ x ∈ chunks.flatten, lo ≤ x) → (∀ x ∈ chunks.flatten, x ≤ hi) → ∀ r ∈ out, lo ≤ r ∧ r ≤ hi) ∧
+    Sorted out ∧
+    (∀ p ∈ q.zip out, (p.1 = 0 → p.2 ∈ chunks.flatten ∧ ∀ x ∈ chunks.flatten, p.2 ≤ x) ∧
+                      (p.1 = 100 → p.2 ∈ chunks.flatten ∧ ∀ x ∈ chunks.flatten, x ≤ p.2)) :=
+  ⟨(percentile_q0_q100 order m q chunks out hs h).1,
+   fun lo hi hlo hhi => percentile_within_data order m q chunks out hs h lo hi hlo hhi,
+   percentile_monotone order m q chunks out hs h,
+   (percentile_q0_q100 order m q chunks out hs h).2⟩
 
 /-! ## non-vacuity -/
 
